@@ -4,7 +4,10 @@ package forward
 import (
 	"net/http"
 	"net/http/httputil"
+	"net/textproto"
 	"net/url"
+	"slices"
+	"strings"
 
 	"github.com/vulcand/oxy/v2/utils"
 )
@@ -18,6 +21,7 @@ func New(passHostHeader bool) *httputil.ReverseProxy {
 			modifyRequest(request)
 
 			h.Rewrite(request)
+			protectForwardingHeaders(request.Header)
 
 			if !passHostHeader {
 				request.Host = request.URL.Host
@@ -54,4 +58,33 @@ func getURLFromRequest(req *http.Request) *url.URL {
 		}
 	}
 	return u
+}
+
+// protectForwardingHeaders drops the forwarding header names from the Connection header:
+// httputil.ReverseProxy removes every header named there after the Director has run,
+// which would let a client strip the headers set by the HeaderRewriter.
+func protectForwardingHeaders(h http.Header) {
+	lines, ok := h[Connection]
+	if !ok {
+		return
+	}
+	kept := make([]string, 0, len(lines))
+	for _, line := range lines {
+		var tokens []string
+		for _, token := range strings.Split(line, ",") {
+			name := textproto.CanonicalMIMEHeaderKey(textproto.TrimString(token))
+			if slices.Contains(XHeaders, name) {
+				continue
+			}
+			tokens = append(tokens, token)
+		}
+		if len(tokens) > 0 {
+			kept = append(kept, strings.Join(tokens, ","))
+		}
+	}
+	if len(kept) == 0 {
+		h.Del(Connection)
+		return
+	}
+	h[Connection] = kept
 }
